@@ -26,7 +26,7 @@ from quri_parts.core.utils import binary_field as BF  # noqa: E402
 from quri_parts.openfermion import transforms as TR  # noqa: E402
 from quri_parts.openfermion.utils import post_selection_filters as PSF  # noqa: E402
 
-IMPORTS = "From Coq Require Import ZArith NArith List Bool.\nFrom QPM Require Import Remap GF2 Mapper.\nOpen Scope Z_scope."
+IMPORTS = "From Coq Require Import ZArith NArith List Bool.\nFrom QPM Require Import Remap GF2 GF2Tri Mapper.\nOpen Scope Z_scope."
 DEFS = """
 Definition b2z (b : bool) : Z := if b then 1 else 0.
 Definition nl (l : list N) : list Z := map Z.of_N l.
@@ -36,6 +36,7 @@ Definition run_inv (M : list N) : list Z :=
   | Some B => b2z (match gj_check M with Some _ => true | None => false end) :: nl B
   end.
 Definition run_mulv (M : list N) (x : N) : list Z := [Z.of_N (mulv M x)].
+Definition run_shape (M : list N) : list Z := [b2z (unit_lowerb M)].
 Definition run_map (n nq : nat) (M : list N) (smask : N) (occs bitss : list N) : list Z :=
   match inverse M with
   | None => [-1]
@@ -197,6 +198,19 @@ def main():
         except Exception as e:  # noqa: BLE001
             res.fail(f"corr:{name}:crash", f"{type(e).__name__}: {e}", {"mapping": name, "n": n, "n_e": ne, "sz": sz})
 
+    # 2b. the hypothesis of the size-independent round-trip theorem (GF2Tri.v): the number-operator matrix read from the
+    # real JW / BK objects is unit lower-triangular (row i = Z on i and on qubits below i) - at sizes far beyond those the
+    # elimination is run on
+    for n in (list(range(1, 25)) + [31, 32, 33, 48, 63, 64, 65]) if quick else range(1, 101):
+        for name, fac in (("JW", TR.jordan_wigner), ("BK", TR.bravyi_kitaev)):
+            try:
+                mp = fac(n)
+                M = rows_of([[mp._inv_trans_mat[i][j] for j in range(n)] for i in range(n)], n)
+                terms.append(f"run_shape {nlist(M)}")
+                checks.append(("shape", [1], {"mapping": name, "n": n, "n_qubits": mp.n_qubits, "M": M}))
+            except Exception as e:  # noqa: BLE001
+                res.fail(f"corr:{name}:crash", f"{type(e).__name__}: {e}", {"mapping": name, "n": n})
+
     # 3. JW filter on wide registers
     for _ in range(40 if quick else 400):
         w = rng.choice([4, 8, 16, 63, 64, 65, 100, 130])
@@ -242,6 +256,11 @@ def main():
             elif info["mapping"] in ("JW", "BK") and (m[0] != 1 or info["n_qubits"] != n):
                 res.fail(f"corr:{info['mapping']}:theorem_hypotheses", "gj_check fails or qubits are dropped: the Coq round-trip "
                          "theorems do not cover this instance", info)
+        elif kind == "shape":
+            if m != real or info["n_qubits"] != info["n"]:
+                res.broken.append({"what": f"C13: the {info['mapping']} number-operator matrix at n = {info['n']} is not unit "
+                                   "lower-triangular (or qubits are dropped): mappers_round_trip_at_every_size does not cover it",
+                                   "detail": str(info)[:600]})
         else:
             if m != real:
                 res.fail(f"corr:{kind}:{info.get('filter', '')}", f"model {m} != implementation {real}", info)
